@@ -300,6 +300,11 @@ class Property(DataElement):
 
     @value_type.setter
     def value_type(self, value_type: base.DataTypeDefXsd) -> None:
+        # AASd-109: an item of a SubmodelElementList of Properties / Ranges keeps the value type the list announces
+        if isinstance(self.parent, SubmodelElementList) and self.parent.type_value_list_element in (Property, Range) \
+                and value_type is not self.parent.value_type_list_element:
+            raise base.AASConstraintViolation(109, "All first level elements must have the value_type specified by "
+                                                   "value_type_list_element of the list that contains them")
         # keep value and value_type consistent: an existing value is re-cast (or the assignment is refused)
         if getattr(self, "_value", None) is not None:
             self._value = datatypes.trivial_cast(self._value, value_type)
@@ -448,6 +453,11 @@ class Range(DataElement):
 
     @value_type.setter
     def value_type(self, value_type: base.DataTypeDefXsd) -> None:
+        # AASd-109: an item of a SubmodelElementList of Properties / Ranges keeps the value type the list announces
+        if isinstance(self.parent, SubmodelElementList) and self.parent.type_value_list_element in (Property, Range) \
+                and value_type is not self.parent.value_type_list_element:
+            raise base.AASConstraintViolation(109, "All first level elements must have the value_type specified by "
+                                                   "value_type_list_element of the list that contains them")
         # keep min/max and value_type consistent: existing values are re-cast (or the assignment is refused)
         new_min = getattr(self, "_min", None)
         new_max = getattr(self, "_max", None)
